@@ -93,6 +93,26 @@ fn apply_call(d: &mut Distinfo, call: &[u8], rets: &mut String) -> Option<()> {
             let e = Entry::new(path_of(parts[0]), path_of(b""), sums, size);
             rets.push_str(b(d.insert(e)));
         }
+        2 => {
+            // insert(Entry::new(name, FILEPATH, ..)): the path the file was hashed from differs
+            // from its distinfo name
+            let parts: Vec<&[u8]> = payload.split(|c| *c == 0).collect();
+            if parts.len() < 3 || (parts.len() - 3) % 2 != 0 {
+                return None;
+            }
+            let size = if parts[2] == b"-" {
+                None
+            } else {
+                Some(std::str::from_utf8(parts[2]).ok()?.parse::<u64>().ok()?)
+            };
+            let mut sums = vec![];
+            for i in (3..parts.len()).step_by(2) {
+                let dg = Digest::from_str(std::str::from_utf8(parts[i]).ok()?).ok()?;
+                sums.push(Checksum::new(dg, String::from_utf8(parts[i + 1].to_vec()).ok()?));
+            }
+            let e = Entry::new(path_of(parts[0]), path_of(parts[1]), sums, size);
+            rets.push_str(b(d.insert(e)));
+        }
         _ => return None,
     }
     Some(())
